@@ -10,6 +10,8 @@ cmd="$1"
 # (with FAKE_PER_HOST every host name has its own remote file system)
 if [ -n "$FAKE_PER_HOST" ]; then FAKE_REMOTE_ROOT="$FAKE_REMOTE_ROOT-$host"; mkdir -p "$FAKE_REMOTE_ROOT"; fi
 cmd="${cmd//\/var\/tmp/$FAKE_REMOTE_ROOT}"
+# (with FAKE_UNAME_MAP="host=arch ..." each host claims its own architecture)
+if [ -n "$FAKE_UNAME_MAP" ]; then unset FAKE_UNAME; for kv in $FAKE_UNAME_MAP; do if [ "${kv%%=*}" = "$host" ]; then export FAKE_UNAME="${kv#*=}"; fi; done; fi
 printf 'ssh\t%s\t%s\n' "$host" "$(printf '%s' "$1" | tr '\n' ' ')" >> "$FAKE_LOG"
 if [ -n "$FAKE_RELAY_ORDER$FAKE_CUT$FAKE_KEY_LOG$FAKE_PAUSE$FAKE_BAD_PORT" ] && [[ "$cmd" == *--doer* ]]; then exec python3 "$(dirname "$0")/relay.py" "$cmd"; fi
 exec /bin/bash -c "$cmd"
@@ -160,6 +162,8 @@ printf 'scp\t%s\n' "$*" >> "$FAKE_LOG"
 src="$2"
 if [ -n "$FAKE_PER_HOST" ]; then h="${3%%:*}"; FAKE_REMOTE_ROOT="$FAKE_REMOTE_ROOT-$h"; fi
 mkdir -p "$FAKE_REMOTE_ROOT"
+# with FAKE_SCP_NOOP the upload "succeeds" without changing what ssh launches (a chroot'ed sftp, another machine behind the alias)
+if [ -n "$FAKE_SCP_NOOP" ]; then exit 0; fi
 exec cp -r "$src" "$FAKE_REMOTE_ROOT/"
 '''
 
